@@ -6,7 +6,7 @@ xm_c10: template conflict resolution.  One request per line, one reply per line.
   reset
   sheet <path> <wrapperless 0|1>                 path = "-" (root module) or dot-separated import indices (document order);
                                                  parents before children, siblings in document order
-  tmpl <path> <id> <mode> <prio|-> <pat> <applyImports 0|1 | c<named id> | 1c<named id>> <nalts> {<last> <name|-> <shape 0 simple|1 multi-step|2 boolean predicate|3 positional predicate>}*
+  tmpl <path> <id> <mode> <prio|-> <pat> <applyImports 0|1>[c<named id>][w<mode>[b<named id>]][x = bare: the body is only the call] <nalts> {<last> <name|-> <shape 0 simple|1 multi-step|2 boolean predicate|3 positional predicate>}*
                                                  in document order of the module (xsl:include expanded)
        last ∈ fn root comment text node pi pilit ne na we wa nwe nwa
   node <id> <kind> <lname|-> <text|-> <kids…>    kind ∈ el at ns tx co pi rt ot ; ids are 0,1,2… in order
@@ -99,23 +99,25 @@ def query (st : St) (n mode : Nat) : String :=
   let subOf := fun (t : Tmpl) => (root.sub (sheetOf st t)).getD root
   let named := fun (id : Nat) => (st.tmpls.find? (·.2.id = id)).map (·.2)
   let implKeeps := !XalanModel.Generated.C10.callTemplateChangesCurrentRule
+  let implWp := !XalanModel.Generated.C10.withParamSeesCalleeMode
+  let implDirect := !XalanModel.Generated.C10.directCallTemplateChangesCurrentRule
   let impl := fun (quiet : Bool) =>
     processWith st.nodes
       (fun k m => implFind (amImpl st k) (info k).kind (info k).lname m quiet root)
       (fun cur k m => implApplyImports (amImpl st k) (info k).kind (info k).lname m quiet (subOf cur))
-      named implKeeps 10000 n mode none
+      named implKeeps implDirect implWp 10000 n mode none []
   let spec :=
     processWith st.nodes
       (fun k m => specWinner (amOf st k) m root)
       (fun cur k m => specApplyImports (amOf st k) m (subOf cur))
-      named true 10000 n mode none
+      named true true true 10000 n mode none []
   let warns :=
     warnsWith st.nodes
       (fun k m => implFind (amImpl st k) (info k).kind (info k).lname m false root)
       (fun cur k m => implApplyImports (amImpl st k) (info k).kind (info k).lname m false (subOf cur))
       (fun k m => root.build.warn (amImpl st k) (info k).kind (info k).lname m false)
       (fun cur k m => (subOf cur).build.warn (amImpl st k) (info k).kind (info k).lname m true)
-      named implKeeps 10000 n mode none
+      named implKeeps implDirect implWp 10000 n mode none
   s!"q={showToks (impl true)} r={showToks (impl false)} s={showToks spec} w={warns}"
 
 def showPseudo : Pseudo → String
@@ -134,6 +136,13 @@ def step (st : St) : List String → St × String
     | some p, some w => ({ st with sheets := st.sheets ++ [(p, w != 0)] }, "ok")
     | _, _ => (st, "bad")
   | "tmpl" :: p :: id :: mode :: prio :: pat :: ai :: na :: rest =>
+    let bare := ai.endsWith "x"
+    let ai := if bare then (ai.dropRight 1) else ai
+    let wSplit := ai.splitOn "w"
+    let ai := wSplit.headD "0"
+    let wPart := ((wSplit.drop 1).headD "").splitOn "b"
+    let wpMode := (wPart.headD "").toNat?.getD 0
+    let wpCall := ((wPart.drop 1).headD "0").toNat?.getD 0
     let aiParts := ai.splitOn "c"
     let aiFlag := (aiParts.headD "0")
     let callId := ((aiParts.drop 1).headD "0").toNat?.getD 0
@@ -143,7 +152,8 @@ def step (st : St) : List String → St × String
       match pr, parseAlts na rest with
       | some pr, some alts =>
         ({ st with tmpls := st.tmpls ++ [(p, { id := id, mode := mode, prio := pr, pat := pat, alts := alts,
-                                               applyImports := ai != 0, call := callId })] }, "ok")
+                                               applyImports := ai != 0, call := callId, wpMode := wpMode,
+                                               wpCall := wpCall, bare := bare })] }, "ok")
       | _, _ => (st, "bad")
     | _, _, _, _, _, _ => (st, "bad")
   | "node" :: id :: k :: ln :: tx :: kids =>
